@@ -38,23 +38,53 @@ def _worker(recs):
     return out
 
 
+def _sub_codes(gx, ode):
+    """Code of every component taken out as a model of its own (None where that is refused)."""
+    out = {}
+    for c in ode.components:
+        if not c.name:
+            continue
+        try:
+            out[c.name] = gx.numpy_code(c.to_ode(), [])
+        except Exception as ex:  # noqa: BLE001
+            out[c.name] = f"refused:{type(ex).__name__}"
+    return out
+
+
 def _dup_worker(recs):
     from .. import gx
     out = []
     for r in recs:
-        # the faulted text, and the same text with the entries of every block reversed (the duplicate comes first)
+        # the faulted text; the same text with the entries of every block reversed (the duplicate comes first);
+        # the same text with the blocks in reverse order (the other component comes first)
         ta = modelcase.render_text(r["blocks"])
         rev = [dict(b, entries=list(reversed(b["entries"]))) for b in r["blocks"]]
         tb = modelcase.render_text(rev)
+        # (only where every expressions block carries its component header: a header-less block placed below another
+        # component's header would belong to that component, which is another text, not a permutation of this one)
+        headed = all(b["comp"] for b in r["blocks"] if b["k"] == "expressions")
+        tc = modelcase.render_text(list(reversed(r["blocks"]))) if headed else ta
         res = []
-        for t in (ta, tb):
+        for t in (ta, tb, tc):
             try:
                 ode = gx.load(t, name="m")
-                res.append(("accepted", gx.numpy_code(ode, [])))
+                res.append(("accepted", gx.numpy_code(ode, []), ode, _sub_codes(gx, ode)))
             except Exception as ex:  # noqa: BLE001
-                res.append(("rejected", type(ex).__name__))
-        out.append({"text": ta, "reversed": tb, "fault": r["fault"], "a": res[0][0], "b": res[1][0],
-                    "same_code": res[0] == res[1] if res[0][0] == "accepted" == res[1][0] else None})
+                res.append(("rejected", type(ex).__name__, None, None))
+        o = {"text": ta, "reversed": tb, "blocks_reversed": tc, "fault": r["fault"], "a": res[0][0], "b": res[1][0], "c": res[2][0],
+             "same_code": None, "differs": []}
+        if res[0][0] == "accepted":
+            for label, x in (("entries-reversed", res[1]), ("blocks-reversed", res[2])):
+                if x[0] != "accepted":
+                    continue
+                if x[1] != res[0][1]:
+                    o["differs"].append(f"{label}:code")
+                if not (x[2] == res[0][2]):
+                    o["differs"].append(f"{label}:model-equality")
+                if x[3] != res[0][3]:
+                    o["differs"].append(f"{label}:component-sub-model-code")
+            o["same_code"] = not o["differs"]
+        out.append(o)
     return out
 
 
@@ -65,6 +95,9 @@ def swapped_duplicates(chk, quick):
     cfg = tlc.make_cfg(spec="FSpec", constants=consts, invariants=["C08_AcceptIffWellFormed", "FEmit"])
     res = tlc.run_tlc("MC_IllFormed", cfg, workers=chk.nproc, timeout=1800, constants_for_summary=consts)
     recs = [r for r in res.records if r["fault"]["kind"].startswith("dup-")]
+    kinds_seen = {r["fault"]["kind"] for r in recs}
+    if "dup-other-comp-identical" not in kinds_seen or "dup-identical" not in kinds_seen:
+        raise core.MachineryFailure(f"duplicate kinds without a text: {sorted(kinds_seen)}")
     res.records = []
     chk.add_tlc(res)
     chunks = [recs[i::chk.nproc * 2] for i in range(chk.nproc * 2)]
@@ -73,10 +106,10 @@ def swapped_duplicates(chk, quick):
         for out in ex.map(_dup_worker, [c for c in chunks if c]):
             for o in out:
                 n += 1
-                if o["a"] != o["b"] or o["same_code"] is False:
-                    chk.violation(f"C10:duplicate-order:{o['fault']['kind']}", o,
-                                  f"two definitions of {o['fault']['site']} ({o['fault']['kind']}): written in one order the text is "
-                                  f"{o['a']}, in the other {o['b']}" + ("" if o["same_code"] is not False else " with different generated code"))
+                if len({o["a"], o["b"], o["c"]}) > 1 or o["same_code"] is False:
+                    chk.violation(f"C10:duplicate-order:{o['fault']['kind']}:{'+'.join(sorted(set(d.split(':')[1] for d in o['differs']))) or 'accept-reject'}", o,
+                                  f"two definitions of {o['fault']['site']} ({o['fault']['kind']}): as written the text is {o['a']}, with the "
+                                  f"entries reversed {o['b']}, with the blocks reversed {o['c']}; differences: {o['differs']}")
     chk.replayed += n
     chk.extra["duplicate_order_texts"] = n
 
